@@ -319,7 +319,72 @@ def rule_r5(p, res):
     r.check(sig(calls[0]) == sig(calls[1]), ap, calls[1], "object path and array path must apply with the same batch size and keywords")
 
 
-RULES = [rule_r1, rule_r2, rule_r3, rule_r4, rule_r5]
+REDUCERS = {"mean", "sum", "max", "min", "std", "var", "median", "norm", "argmax", "argmin", "prod", "cumsum", "sort", "argsort", "ptp", "average", "amax", "amin"}
+
+
+def rule_r6(p, res):
+    r = res.rule("C09.R6", "each point is mapped independently: no _apply reads one fixed row of, or reduces over, the points it is given")
+    seen = set()
+    for c in transform_classes(p):
+        f = p.lookup(c, "_apply")
+        if f is None or only_raises(f.node) or f in seen:
+            continue
+        seen.add(f)
+        r.instance(f)
+        x = f.params[1]
+        d = Defs(f.node)
+        # locals derived from the point array
+        tainted = {x}
+        for _ in range(4):
+            for nm, ds in d.defs.items():
+                if nm in tainted:
+                    continue
+                for kind, val, st in ds:
+                    if kind in ("assign", "unpack", "aug") and val is not None:
+                        v = val[0] if kind == "unpack" else (val[1] if kind == "aug" else val)
+                        if isinstance(v, ast.AST) and any(isinstance(n, ast.Name) and n.id in tainted for n in ast.walk(v)):
+                            tainted.add(nm)
+        ok = True
+        for n in walk_own(f.node):
+            if isinstance(n, ast.Subscript) and isinstance(n.value, ast.Name) and n.value.id in tainted:
+                first = n.slice.elts[0] if isinstance(n.slice, ast.Tuple) and n.slice.elts else n.slice
+                iv = None
+                if isinstance(first, ast.Constant) and isinstance(first.value, int) and not isinstance(first.value, bool):
+                    iv = first.value
+                elif isinstance(first, ast.UnaryOp) and isinstance(first.op, ast.USub) and isinstance(first.operand, ast.Constant) and isinstance(first.operand.value, int):
+                    iv = -first.operand.value
+                if iv is not None and isinstance(n.ctx, ast.Load):
+                    ok = False
+                    r.violation(f, n, "%s reads row %d of `%s`, an array with one row per point: every point's image then depends on which other points are in the same call "
+                                "(batching and the position in the batch change the result)" % (f.short, iv, n.value.id))
+            elif isinstance(n, ast.Call):
+                dn = dotted(n.func) or ""
+                last = dn.split(".")[-1]
+                if last in REDUCERS:
+                    args = list(n.args)
+                    recv = n.func.value if isinstance(n.func, ast.Attribute) and not dn.startswith(("np.", "numpy.")) else None
+                    cand = ([recv] if recv is not None else []) + args[:1]
+                    if any(isinstance(a, ast.Name) and a.id in tainted for a in cand):
+                        ax = kwarg(n, "axis")
+                        axv = ax.value if isinstance(ax, ast.Constant) else (None if ax is None else "?")
+                        if ax is None or axv == 0:
+                            ok = False
+                            r.violation(f, n, "%s reduces over the points it is given (`%s`): the image of a point then depends on the other points in the call" % (f.short, norm(n)[:50]))
+        if ok:
+            r.ok({"function": f.short, "row_independent": True})
+    # both paths of the generic batching pass the same extra arguments to _apply
+    for c in transform_classes(p):
+        f = c.methods.get("_apply_batched")
+        if f is None:
+            continue
+        calls = [k for k in calls_in(f.node) if norm(k.func) == "self._apply"]
+        sigs = {(tuple(norm(a) for a in k.args[1:]), tuple(sorted((kw.arg or "**", norm(kw.value)) for kw in k.keywords))) for k in calls}
+        r.check(len(calls) >= 2 and len(sigs) == 1 and any(kw.arg is None for k in calls for kw in k.keywords), f, calls[-1] if calls else f.node,
+                "%s must pass the same extra arguments (**kwargs) to _apply with and without batching (found %s)" % (f.short, sorted(sigs)), {"function": f.short})
+    r.floor(8, "_apply bodies")
+
+
+RULES = [rule_r1, rule_r2, rule_r3, rule_r4, rule_r5, rule_r6]
 
 WITNESSES = [
     Witness("C09.W1", "menpo/transform/piecewiseaffine/base.py", "CachedPWA.index_alpha_beta",
@@ -338,6 +403,9 @@ WITNESSES = [
             "hi_ind = lo_ind + batch_size", "hi_ind = lo_ind + batch_size - 1", rule="C09.R4", construct="Transform._apply_batched"),
     Witness("C09.W7", "menpo/transform/rbf.py", "R2LogR2RBF._apply",
             "mask = euclidean_distance == 0", "mask = euclidean_distance == 0\n    self.c[0] = x[0]", rule="C09.R1", construct="R2LogR2RBF._apply"),
+    Witness("C09.W8", "menpo/transform/homogeneous/base.py", "Homogeneous._apply", "h_y / h_y[:, -1][:, None]", "h_y / h_y[-1, -1]", rule="C09.R6", construct="Homogeneous._apply", note="seeded change R2-C09-A"),
+    Witness("C09.W9", "menpo/transform/base/__init__.py", "Transform._apply_batched", "outputs.append(self._apply(x[lo_ind:hi_ind], **kwargs))", "outputs.append(self._apply(x[lo_ind:hi_ind]))",
+            rule="C09.R6", construct="Transform._apply_batched", note="seeded change R2-C09-C"),
     Witness("C09.T1", "menpo/transform/base/__init__.py", "Transform._apply_batched",
             "n_points = x.shape[0]", "n_points = len(x)", kind="T"),
 ]
